@@ -125,6 +125,8 @@ class HostSim:
         self._devpkt = None      # bytes of the device packet in progress
         self._last_tx_end = -10 ** 9
         self.t = 0
+        self.interlude = None               # async fn(host, where) called between the stages of control transfers ("setup-data", "data",
+                                            # "data-status", "setup-status"): transactions on OTHER endpoints the host is free to interleave
         self.status_after_silence = False   # control_out: proceed to the status stage when a data-stage packet gets no handshake
 
     # ---- one cycle ------------------------------------------------------------------------------------------
@@ -232,12 +234,22 @@ class HostSim:
         pl = [bmRequestType, bRequest, wValue & 0xff, wValue >> 8, wIndex & 0xff, wIndex >> 8, wLength & 0xff, wLength >> 8]
         return await self.out_txn(ep, pl, data_pid=PID_DATA0, token_pid=PID_SETUP)
 
+    async def _inter(self, where):
+        if self.interlude is not None:
+            f = self.interlude
+            self.interlude = None            # no recursion: the interlude itself may use control-free primitives only
+            try:
+                await f(self, where)
+            finally:
+                self.interlude = f
+
     async def control_in(self, bmRequestType, bRequest, wValue=0, wIndex=0, wLength=0, *, mps=64, max_naks=20, status=True):
         """-> (outcome, data): outcome 'ok' | 'stall' | 'timeout' | 'nak-limit' | 'bad'"""
         r = await self.setup(bmRequestType, bRequest, wValue, wIndex, wLength)
         if r != ('hs', PID_ACK):
             return ('setup-' + str(r), None)
         data = []; naks = 0
+        await self._inter("setup-data")
         while True:
             await self.idle(self.rng.randint(0, 2))
             p = await self.in_txn(0)
@@ -255,6 +267,7 @@ class HostSim:
                 break
         if status:
             naks = 0
+            await self._inter("data-status")
             while True:
                 r = await self.out_txn(0, [], data_pid=PID_DATA1)
                 if r == ('hs', PID_NAK):
@@ -268,10 +281,12 @@ class HostSim:
 
     async def control_out(self, bmRequestType, bRequest, wValue=0, wIndex=0, data=(), *, mps=64, max_naks=20):
         """-> outcome 'ok' | 'stall' | ..."""
+        len_data = len(data)
         r = await self.setup(bmRequestType, bRequest, wValue, wIndex, len(data))
         if r != ('hs', PID_ACK):
             return 'setup-' + str(r)
         data = list(data); pid = PID_DATA1
+        await self._inter("setup-data" if data else "setup-status")
         while data:
             chunk, rest = data[:mps], data[mps:]
             naks = 0
@@ -287,6 +302,7 @@ class HostSim:
             if r != ('hs', PID_ACK): return 'data-' + str(r)
             data = rest; pid = PID_DATA0 if pid == PID_DATA1 else PID_DATA1
         naks = 0
+        if len_data: await self._inter("data-status")
         while True:
             await self.idle(self.rng.randint(0, 2))
             p = await self.in_txn(0)
